@@ -1481,8 +1481,17 @@ class Parameter(_ParameterBase):
     def _trigger_event(self, attribute, old, new):
         event = Event(what=attribute, name=self.name, obj=None, cls=self.owner,
                       old=old, new=new, type=None)
-        for watcher in self.watchers[attribute]:
-            self.owner.param._call_watcher(watcher, event)
+        pending = (list(self.owner.param._events), list(self.owner.param._state_watchers))
+        try:
+            # (a copy: a watcher may unwatch itself)
+            for watcher in list(self.watchers[attribute]):
+                self.owner.param._call_watcher(watcher, event)
+        except BaseException:
+            # As for values: what queued watchers of this aborted dispatch
+            # queued is not left for a later, unrelated assignment
+            if not self.owner.param._BATCH_WATCH:
+                self.owner.param._drop_events_queued_since(*pending)
+            raise
         if not self.owner.param._BATCH_WATCH:
             self.owner.param._batch_call_watchers()
 
@@ -1652,19 +1661,22 @@ class Parameter(_ParameterBase):
         event = Event(what='value', name=name, obj=obj, cls=self.owner,
                       old=_old, new=val, type=None)
 
+        # What is queued already belongs to an enclosing dispatch (this
+        # assignment may be made by one of its watchers)
+        pending = (list(obj.param._events), list(obj.param._state_watchers))
         # Copy watchers here since they may be modified inplace during iteration
         try:
             for watcher in sorted(watchers, key=lambda w: w.precedence):
                 obj.param._call_watcher(watcher, event)
-            if not obj.param._BATCH_WATCH:
-                obj.param._batch_call_watchers()
         except BaseException:
             # Events queued by queued watchers of this (aborted) dispatch
             # must not be delivered by some later, unrelated assignment.
             if not obj.param._BATCH_WATCH:
-                obj.param._events = []
-                obj.param._state_watchers = []
+                obj.param._drop_events_queued_since(*pending)
             raise
+        if not obj.param._BATCH_WATCH:
+            # (cleans up after itself if a watcher raises)
+            obj.param._batch_call_watchers()
 
     def _validate_value(self, value, allow_None):
         """Validate the parameter value against constraints.
@@ -2873,6 +2885,20 @@ class Parameters:
             event = self_._update_event_type(watcher, event, self_._TRIGGER)
             with _batch_call_watchers(self_.self_or_cls, enable=watcher.queued, run=False):
                 self_._execute_watcher(watcher, (event,))
+
+    def _drop_events_queued_since(self_, events, watchers):
+        """
+        After an aborted dispatch: keep of the queued events and watchers
+        only those that were already queued (`events`, `watchers`) when
+        the dispatch began and have not been delivered meanwhile.
+        """
+        kept = [e for e in self_._events if any(e is p for p in events)]
+        names = {(e.name, e.what) for e in kept}
+        self_._events = kept
+        self_._state_watchers = [
+            w for w in self_._state_watchers
+            if any(w is p for p in watchers)
+            and any((n, w.what) in names for n in w.parameter_names)]
 
     def _batch_call_watchers(self_):
         """
